@@ -226,6 +226,28 @@ def range_probe(pt, acc, rng):
     r = avm.run(p, avm.Ctx(group=[{"ApplicationArgs": [fit.to_bytes(8, "big")]}]))
     if r.status != "approve" or r.logs != [fit.to_bytes(bits // 8, "big")]:
         acc.violation("range_rt_fit_wrong", case, "%s.set(expr=%d) at v%d: status=%s logs=%r" % (tname, fit, version, r.status, r.logs))
+    # the value arrives inside another ABI integer (set(<ABI uint instance>)): a wider source holding a value that does not fit is
+    # refused when the expression is built, or makes the program fail - it is never cut down to the low bytes
+    for wbits in (16, 32, 64):
+        if wbits <= bits:
+            continue
+        for val, must_fail in ((over if over < 2**wbits else 2**bits, True), (fit, False)):
+            reset_globals()
+            src = abigen.spec_of(pt, abigen.sdk("uint%d" % wbits)).new_instance()
+            x = ts.new_instance()
+            try:
+                prog3 = pt.Seq(src.set(pt.Btoi(pt.Txn.application_args[0])), x.set(src), pt.Log(x.encode()), pt.Int(1))
+                teal3 = pt.compileTeal(prog3, pt.Mode.Application, version=version)
+            except PT_ERRORS:
+                acc.counters["range_wider_source_rejected_at_build"] += 1
+                continue
+            r3 = avm.run(avm.parse_any(teal3), avm.Ctx(group=[{"ApplicationArgs": [val.to_bytes(8, "big")]}]))
+            if must_fail and r3.status != "fail":
+                acc.violation("range_rt_not_failed", dict(case, spelling="abi_uint%d_instance" % wbits), "%s.set(<uint%d holding %d>) at v%d: status=%s logs=%r" % (tname, wbits, val, version, r3.status, r3.logs))
+            elif not must_fail and r3.status == "approve" and r3.logs != [val.to_bytes(bits // 8, "big")]:
+                acc.violation("range_rt_fit_wrong", dict(case, spelling="abi_uint%d_instance" % wbits), "%s.set(<uint%d holding %d>) at v%d: logs=%r" % (tname, wbits, val, version, r3.logs))
+            else:
+                acc.counters["range_wider_source_" + ("failed" if must_fail else "ok")] += 1
 
 
 def descriptor_probe(pt, acc, rng):
